@@ -13,7 +13,9 @@ fn run_comp(name: &str, mode: u8) {
     let stdout = io::stdout();
     let mut out = io::BufWriter::new(stdout.lock());
     let mut ops: Vec<Vec<i128>> = Vec::new();
-    panic::set_hook(Box::new(|_| {}));
+    if std::env::var("QVH_PANIC_TRACE").is_err() {
+        panic::set_hook(Box::new(|_| {}));
+    }
     for line in stdin.lock().lines() {
         let line = line.unwrap();
         let t = line.trim();
